@@ -207,12 +207,19 @@ def gen_config(rng, quick, it):
         rng.shuffle(vals)
         lays = dict(zip([k for k, _ in items], vals))
     names = list(lays)
+    if it % 7 == 2 and connected:
+        # one ordering under two names (a work copy of a layout): moving between them is a plain copy of the block, with or without buffer
+        lays = dict(lays)
+        lays['copy_of_' + names[0]] = list(lays[names[0]])
+        names = list(lays)
     allpairs = [(a, b) for a in names for b in names if a != b] + [(rng.choice(names),) * 2]
     k = min(len(allpairs), 6 if quick else 12)
     pairs = [(a, b, rng.random() < 0.5) for a, b in rng.sample(allpairs, k)]
     # the same ordered pair again later on the same handler (with the same and with the other buffer choice): nothing of a call may
     # survive into the next one
     pairs += [(a, b, ub if rng.random() < 0.5 else not ub) for a, b, ub in pairs[:3]]
+    if names[-1].startswith('copy_of_'):
+        pairs += [(names[0], names[-1], False), (names[-1], names[0], True), (names[-1], names[0], False)]
     return {'nprocs': nprocs, 'ext': shape, 'layouts': lays, 'pairs': pairs, 'dtype': DTYPES[it % 3],
             'policy': rng.choice(['inorder', 'reverse', 'random']), 'seed': it}
 
@@ -249,6 +256,14 @@ def standard_configs():
     for shape, nprocs in [([15, 22], [11]), ([61, 8], [7]), ([15, 30], [13])]:
         out.append({'nprocs': nprocs, 'ext': shape, 'layouts': {'A': [0, 1], 'B': [1, 0]}, 'dtype': 'int64',
                     'pairs': [('A', 'B', False), ('B', 'A', True)]})
+    # seven orderings of a 4-D array on a 2 x 2 grid with uneven blocks: several pairs are joined by more than one shortest route, and the
+    # local block sizes of the layouts differ from process to process - the route table must still be the same on all of them
+    L7 = {'flux_surface': [3, 1, 2, 0], 'v_parallel': [0, 1, 3, 2], 'poloidal': [1, 0, 2, 3], 'mode_solve': [0, 3, 2, 1],
+          'z_contiguous': [3, 2, 0, 1], 'r_spline': [0, 2, 3, 1], 'theta_spline': [3, 0, 2, 1]}
+    for shape, nprocs in [([3, 8, 8, 5], [2, 2]), ([5, 3, 7, 4], [2, 2])]:
+        nm = list(L7)
+        out.append({'nprocs': nprocs, 'ext': shape, 'layouts': L7, 'dtype': 'float64',
+                    'pairs': [(nm[i], nm[(i + 3) % 7], bool(i % 2)) for i in range(7)]})
     for shape, nprocs in [([5, 6, 7], [2, 3]), ([4, 4, 6], [1, 2]), ([6, 5, 4], [3, 1])]:
         names = list(L3)
         out.append({'nprocs': nprocs, 'ext': shape, 'layouts': L3, 'dtype': 'complex128',
